@@ -293,6 +293,10 @@ def check(ctx):
     from ..report import Renamed
     ctx.rule('R8', 'flatten (grouping of a tuple of dimensions): contiguity guard, shared insertion point, C-order reshape', 2)
     c11.rule_flatten(Renamed(ctx, {'*': 'R8'}))
+    # the NaN fill promotes integer data (signed or unsigned) to float: widening table of _maybe_cast_type (shared with C03)
+    from . import c03 as _c03
+    from ..report import Renamed as _RenW
+    _c03.rule_widening(_RenW(ctx, {'*': 'R9'}))
     ctx.not_decided += ['which labels survive for a given NaN pattern (value level)', 'stability of argsort for equal labels']
     ctx.trusted += ['ndarray.argsort sorts ascending', 'ndarray.compress / take semantics']
     return EXPLANATION
